@@ -1,20 +1,21 @@
 \* C15 - template for every TLC run of IdGen.tla made by the check (harness/drivers/c15 substitutes @@..@@).
 \* Exhaustive runs check the invariants of the configuration (INVS); behaviour generation runs have
 \* Emit = TRUE and print one behaviour per (state, action) pair (VIEW view = state without hist).
-\* In the quick tier the generation runs are the exhaustive runs (Emit = TRUE and INVS together).
-\*   quick    gen : Procs p1,p2     NCands 2  MaxAttempts 2  MaxCalls 2  layouts distinct,same      (SetNX: 3 920 states; fallback: 6 870)
-\*   thorough gen : Procs p1,p2,p3  NCands 3 (fallback 2)  MaxAttempts 2  MaxCalls 2  layouts distinct,same,mixed
-\*                                                                       (SetNX: 1 330 755 states; fallback: 414 980)
-\*            generation also from 2 procs x 3 cands x 3 attempts x 2 calls and 3 procs x 2 cands x 1 call
-\*   node  untimed: Procs n1,n2,n3   NSlots 2  MaxTicks 0   (968 states)
-\*   node  timed  : Procs n1,n2 (thorough exhaustive: n1,n2,n3, MaxTicks 5)  NSlots 2  TTLTicks 3  MaxTicks 4
-\*            RenewTier/Wiring = claim/split (repaired code), local/same (redis mode), local/split (the code as it was)
-\*   Faults: one store operation of the listed kinds fails once: gen+SetNX {"SetNX","Delete"} (quick: 12 296 states),
-\*            gen fallback {"Exists","Set","Delete"} (thorough), node {"SetNX"} (quick untimed: 2 648 states); {} = none
-\* INVS per configuration: gen+SetNX: Unique HeldDisjoint NoTaken HeldMarked Exhaustion;  gen fallback: NoTaken
-\* Exhaustion FallbackOnlyDeviation;  node: NodeUnique NoForeign ClaimNeverExpiresUnderLiveHolder NoWrongTier FailedHoldsNothing;
-\* node as it was: NoForeign NodeOnlyDeviation.   IdGen_show_*.cfg: the same models with the plain property - TLC
-\* finds the duplicate.
+\* In the quick tier the generation runs are the exhaustive runs (Emit = TRUE and INVS together), and to save
+\* JVM starts there are only two: gen with HasNX = "both" (store with / without SetNX chosen in Init) and node,
+\* which carries the store-less UUID generators as a disjoint sub-model (initial states with fk = "Entropy").
+\*   gen  both    : Procs p1,p2  NCands 2  MaxAttempts 2  MaxCalls 2  layouts distinct,same  Faults SetNX,Delete
+\*                  (thorough: + Exists,Set)  WithLapse TRUE                              (quick: 34 534 states)
+\*   gen  thorough: exhaustive 3 procs x 3 cands x 2 calls SetNX (1 330 755), 3x2x2 SetNX with faults (418 692),
+\*                  3x2x2 fallback (414 980); generation also from 2x3x2 (3 attempts) and 3x2x1
+\*   node untimed : Procs n1,n2,n3  NSlots 2  MaxTicks 0  Faults SetNX,Entropy  NCands 6  MaxCalls 2   (4 527 states)
+\*   node timed   : (thorough) Procs n1,n2 (exhaustive: n1,n2,n3, MaxTicks 5)  NSlots 2  TTLTicks 3  MaxTicks 4
+\*                  RenewTier/Wiring = claim/split (repaired code), local/same (redis mode), local/split (as it was)
+\*   node renewfail: (thorough) Procs n1,n2  NSlots 1  MaxTicks 8  MaxRenewFails 3  MaxCalls 3            (8 841 states)
+\* INVS: gen both: GenOK;  gen SetNX: Unique HeldDisjoint NoTaken HeldMarked Exhaustion;  gen fallback: NoTaken
+\* Exhaustion FallbackOnlyDeviation;  node: NodeUnique NoForeign ClaimNeverExpiresUnderLiveHolder NoWrongTier
+\* FailedHoldsNothing Unique HeldDisjoint;  node as it was: NoForeign NodeOnlyDeviation.
+\* IdGen_show_*.cfg: the same models with the plain property - TLC finds the duplicate.
 CONSTANTS
   Mode = "@@MODE@@"
   Procs = {@@PROCS@@}
